@@ -2,7 +2,9 @@ package c13
 
 import (
 	"fmt"
+	"net"
 	"os"
+	"strings"
 	"sync"
 	"testing"
 	"time"
@@ -24,12 +26,13 @@ func TestC13BurstArrivals(t *testing.T) {
 			tr := rapid.SampledFrom([]string{"ws", "ws", "wss", "tcp", "ipc", "tls+tcp", "inproc"}).Draw(t, "transport")
 			n := rapid.IntRange(2, 5).Draw(t, "queued")
 			holdMs := rapid.SampledFrom([]int{20, 60}).Draw(t, "holdMs")
-			doc := map[string]interface{}{"test": "TestC13BurstArrivals", "transport": tr, "queued": n, "hold_ms": holdMs, "rseed": os.Getenv("VERIF_RSEED")}
+			silent := tr != "inproc" && rapid.Bool().Draw(t, "silentConnectionFirst")
+			doc := map[string]interface{}{"test": "TestC13BurstArrivals", "transport": tr, "queued": n, "hold_ms": holdMs, "silent_first": silent, "rseed": os.Getenv("VERIF_RSEED")}
 			fail := func(k, f string, a ...interface{}) {
 				stats.Fail(t, "C13:burst-"+k, doc, "%s, %d connections queued behind a held accept loop: %s", tr, n, fmt.Sprintf(f, a...))
 			}
 			srv := fixture.New("pull")
-			defer srv.Close()
+			defer fixture.Within(3*time.Second, func() { _ = srv.Close() }) // a wedged listener must not wedge the report
 			var mu sync.Mutex
 			attaching, attached := 0, 0
 			ids := map[uint32]int{}
@@ -74,8 +77,22 @@ func TestC13BurstArrivals(t *testing.T) {
 				}
 				return c
 			}
+			if silent {
+				// somebody connected earlier and never says a word: that is nobody else's problem
+				network, a := "tcp", addr[strings.Index(addr, "://")+3:]
+				if tr == "ipc" {
+					network = "unix"
+				} else if i := strings.Index(a, "/"); i >= 0 {
+					a = a[:i]
+				}
+				if c, err := net.DialTimeout(network, a, 2*time.Second); err == nil {
+					defer c.Close()
+					time.Sleep(5 * time.Millisecond)
+				}
+				stats.Class("burst_with_silent_connection")
+			}
 			holder := mk("holder")
-			defer holder.Close()
+			defer fixture.Within(3*time.Second, func() { _ = holder.Close() })
 			dl := time.Now().Add(5 * time.Second)
 			for {
 				mu.Lock()
@@ -86,6 +103,10 @@ func TestC13BurstArrivals(t *testing.T) {
 				}
 				if time.Now().After(dl) {
 					close(gate)
+					if silent {
+						fail("stalled-by-silent-connection", "with one connection open that never sent its header, a well-behaved peer that connected afterwards did not reach the Attaching callback within 5s")
+						return
+					}
 					t.Fatalf("harness: first connection never reached the callback")
 				}
 				time.Sleep(time.Millisecond)
@@ -93,7 +114,7 @@ func TestC13BurstArrivals(t *testing.T) {
 			clis := make([]mangos.Socket, n)
 			for i := range clis {
 				clis[i] = mk(fmt.Sprintf("c%d", i))
-				defer clis[i].Close()
+				defer func(c mangos.Socket) { fixture.Within(3*time.Second, func() { _ = c.Close() }) }(clis[i])
 			}
 			time.Sleep(time.Duration(holdMs) * time.Millisecond)
 			close(gate)
